@@ -615,7 +615,7 @@ def rand_sort_list(rng, tier):
 
 COLS = ['a', 'b', 'c', 'd']
 KWNAMES = ['reverse', 'key', 'by', 'ascending', 'inplace', 'reverse', 'cmp', 'stable', 'na_position']
-NAMEPOOL = ['a', 'b', 'c', 'd', 'key', 'name', 'date', 'x y', 'A', 'len', 'keys', 'items', 'values', 'Key', 'col_1', 'z9', 'columns', 'data', 'function', 'other', 'value', 'reverse', 'by', 'ascending', 'inplace']     # dict methods, builtins, a space, cases
+NAMEPOOL = ['a', 'b', 'c', 'd', 'key', 'name', 'date', 'x y', 'A', 'len', 'keys', 'items', 'values', 'Key', 'col_1', 'z9', 'columns', 'data', 'function', 'other', 'value', 'reverse', 'by', 'ascending', 'inplace', '_columns', '_x']     # dict methods, builtins, a space, cases
 def rand_column(rng, n, mode=None):
     mode = mode or rng.choice(['ints', 'ints', 'nums', 'numsnan', 'strs', 'mixed', 'mixed', 'dates', 'none', 'bin', 'bin', 'huge'])
     out = []
